@@ -46,7 +46,7 @@ def h_pdu(ctx, cfg, var, twin=False):
     pack_hands_out_fresh_buffers(ctx, pdu.pack, ref)
     # the same PDU reached by assignment from other contents (metadata of another length / absent, data of another length)
     vals = b.extra["vals"]
-    inits = [SegmentMetadata(ctx.int("i_state", 0, 3), ctx.octets("i_meta", (len(vals["sm"].metadata) + 2) if vals["sm"] is not None else 1)),
+    inits = [SegmentMetadata(ctx.int("i_state", 0, 3), ctx.octets("i_meta", ((len(vals["sm"].metadata) + 2) if len(vals["sm"].metadata) <= 61 else 3) if vals["sm"] is not None else 1)),
              None if vals["sm"] is not None else SegmentMetadata(0, b"")]
     for k, init in enumerate(inits):
         for first in ("meta", "data"):
